@@ -639,6 +639,28 @@ pub fn respell_elements(rng: &mut Rng, doc: &[u8]) -> Vec<u8> {
 
 fn mutate_doc(rng: &mut Rng, doc: &[u8]) -> Vec<u8> {
     let d = mutate_doc_inner(rng, doc);
+    // line ends as other platforms write them (anything that counts lines or columns in bytes)
+    let d = match rng.below(8) {
+        0 => String::from_utf8_lossy(&d).replace('\n', "\r\n").into_bytes(),
+        1 => String::from_utf8_lossy(&d).replace('\n', "\r").into_bytes(),
+        2 | 3 => {
+            // CRLF (or LF) with a comment line of multi-byte text behind every line: whatever position an error
+            // message is computed for, multi-byte characters are all around it
+            let nl = if rng.bool() { "\r\n" } else { "\n" };
+            let fill = *rng.pick(&["é", "€", "𝄞", "aé"]);
+            let t = String::from_utf8_lossy(&d).to_string();
+            let mut o = String::new();
+            for (k, line) in t.split('\n').enumerate() {
+                o.push_str(line);
+                o.push_str(nl);
+                if k > 0 && line.ends_with('>') {
+                    o.push_str(&format!("<!--{}-->{}", fill.repeat(12 + k % 7), nl));
+                }
+            }
+            o.into_bytes()
+        }
+        _ => d,
+    };
     if rng.chance(1, 3) {
         // a UTF-8 byte-order mark: the tokenizer strips it, offsets reported for error messages shift
         let mut v = vec![0xef, 0xbb, 0xbf];
